@@ -63,7 +63,11 @@ PROPS = {
         # roll-up: panic / overflow / bounds freedom of every function under contract (tag C08 in each unit)
         'v_units': ALL_V_UNITS,
         'k_groups': [{'module': 'preprocess/lexer.rs',
-                      'harnesses': [('c08_float_exponent_total_bounded', 'bounded:inputs of at most 22 bytes')], 'tier': 'quick'}],
+                      'harnesses': [('c08_float_exponent_total_bounded', 'bounded:inputs of at most 22 bytes')], 'tier': 'quick'},
+                     # the induction step that bounds #include recursion (stack depth), on the real directive handler
+                     {'module': 'preprocess/preprocess.rs',
+                      'harnesses': [('c08_include_depth_is_bounded', 'bounded:one #include token shape, depth counter fully symbolic')],
+                      'tier': 'quick'}],
         'design_ref': 'DESIGN.md Part I, I.4 (C08)',
     },
     'C10': {
